@@ -80,7 +80,7 @@ func gen(g *lp.Gen) {
 				goBias = 75
 			}
 			if outstanding > bound+q+3 {
-				goBias = 10
+				goBias = 0
 			}
 			switch {
 			case r < goBias:
@@ -95,8 +95,12 @@ func gen(g *lp.Gen) {
 			case r < goBias+8:
 				g.P("relr %d", g.Intn(3))
 			default:
-				g.P("finr %d p=%d", g.Intn(3), b2i(g.Chance(1, 6)))
-				if outstanding > 0 {
+				k := 0
+				if g.Chance(1, 3) {
+					k = g.Intn(3)
+				}
+				g.P("finr %d p=%d", k, b2i(g.Chance(1, 6)))
+				if k == 0 && outstanding > 0 { // finr 0 succeeds whenever anything runs
 					outstanding--
 				}
 			}
